@@ -19,6 +19,7 @@
     reject half).  The differential run additionally compares implementation, model and
     `Doc.nest` / `Doc.firstDeep` for D = 1..40.
 -/
+import JsonC.Lemmas.TranslatedCtor
 import JsonC.Lemmas.TokenerDepth
 import JsonC.Lemmas.TokenerLoc
 import JsonC.Props.C04
